@@ -110,6 +110,39 @@ def fit_eulerian_cubic(volumes, values, v_eval, times_v=True):
     return out / v_eval if times_v else out
 
 
+def fit_eulerian_poly(volumes, values, v_eval, order):
+    """Least-squares polynomial of the given order in Eulerian strain (reference volume = first tabulated one),
+    row-wise for a 2-d ``values`` (n_rows, n_volumes), evaluated at v_eval."""
+    volumes, values, v_eval = (numpy.asarray(z, float) for z in (volumes, values, v_eval))
+    v0 = volumes[0]
+    f = ((v0 / volumes) ** (2.0 / 3.0) - 1) / 2
+    fe = ((v0 / v_eval) ** (2.0 / 3.0) - 1) / 2
+    A = numpy.vander(f, int(order) + 1, increasing=True)
+    coef, *_ = numpy.linalg.lstsq(A, values.T, rcond=None)
+    return (numpy.vander(fe, int(order) + 1, increasing=True) @ coef).T
+
+
+def vibrational_free_energy(freqs, weights, t):
+    """F_vib(T, V_i) in Ry per cell from tabulated frequencies (n_volumes, nq, modes) in cm^-1: sum over q (normalised
+    weights) and over the modes with positive frequency of  hbar w / 2 + k_B T ln(1 - exp(-hbar w / k_B T)).  -> (nt, n_volumes)"""
+    from . import units as U
+    LD = numpy.longdouble
+    w = numpy.asarray(freqs, dtype=LD)
+    pos = w > 0
+    wq = numpy.asarray(weights, dtype=LD)
+    wq = wq / wq.sum()
+    e = LD(U.HC_CM_RY) * numpy.where(pos, w, LD(0))
+    out = []
+    for tt in numpy.asarray(t, dtype=LD):
+        term = e / 2
+        if tt > 0:
+            with numpy.errstate(all="ignore"):
+                q = LD(U.HC_OVER_K_CM) * numpy.where(pos, w, LD(1)) / tt
+                term = term + numpy.where(pos, LD(U.KB_RY) * tt * numpy.log1p(-numpy.exp(-q)), LD(0))
+        out.append((term.sum(axis=-1) * wq[None, :]).sum(axis=-1))
+    return numpy.asarray(out, dtype=float)
+
+
 def fit_eulerian_cubic_dlnf_dlnv(volumes, values, v_eval):
     """d ln c_fit / d ln V, analytic, of the fit above with times_v=True."""
     volumes, values, v_eval = (numpy.asarray(z, float) for z in (volumes, values, v_eval))
